@@ -30,8 +30,10 @@ def catalogue():
         # one-element arrays are not scalars
         'arr1': np.array([2.0]), 'list1': [2.0], 'narr1': np.array([5]), 'parr1': PixCoord([1.0], [2.0]),
         'sarr1': SkyCoord([10.0], [20.0], unit='deg'), 'aarr1': [30.0] * u.deg, 'aAngle1': Angle([45.0], 'deg'), 'qarr1': [2.0] * u.deg,
-        'regP1': CirclePixelRegion(PixCoord(0, 0), 1.0), 'regP2': RectanglePixelRegion(PixCoord(1, 1), 2, 3),
-        'regS1': CircleSkyRegion(sA, 1 * u.arcsec), 'regS2': RectangleSkyRegion(sB, 1 * u.deg, 2 * u.deg),
+        # member regions of compounds carry their own meta/visual (a compound made without meta shares region1's)
+        'regP1': CirclePixelRegion(PixCoord(0, 0), 1.0, meta={'label': 'member'}, visual={'color': 'cyan'}),
+        'regP2': RectanglePixelRegion(PixCoord(1, 1), 2, 3),
+        'regS1': CircleSkyRegion(sA, 1 * u.arcsec, meta={'label': 'member'}, visual={'color': 'cyan'}), 'regS2': RectangleSkyRegion(sB, 1 * u.deg, 2 * u.deg),
         'tHello': 'hello', 'tEmpty': '',
         'op_and': operator.and_, 'op_or': operator.or_,
     }
@@ -220,6 +222,9 @@ class World:
                 self.clsname[act['to']] = act['cls']
             elif a == 'copywith':
                 self.slots[act['to']] = self.slots[act['slot']].copy(**{act['field']: self.val(act['value'])})
+                self.clsname[act['to']] = self.clsname[act['slot']]
+            elif a == 'copywithdict':
+                self.slots[act['to']] = self.slots[act['slot']].copy(**{act['which']: dict_token(act['value'], act['which'])})
                 self.clsname[act['to']] = self.clsname[act['slot']]
             elif a == 'discard':
                 del self.slots[act['slot']]
